@@ -114,6 +114,8 @@ def ansOf : Except String KeyAns → String
   the slice-level machine (`Model/C02Batch`: backing arrays, `append` in place, `make`), with the timer oracle the
   chunk script suggests; the sent batches are read only at the very END (`lateRead`), numbered `BatchStart + idx`
   and matched by the model regex engine; per match `number:line:indices:extracted` for `{src}|{line}|{1}|{2}`;
+* `tfheap <batch> <buffer> <flushms> <chunks> <lines>` – the same machine looked at directly: do the sent slices have pairwise
+  different backing arrays, is every capacity the batch size, what do they read at the end (`number:line`);
 * `vis <bytes>` – `color.StrLen`'s visible bytes (count compared with the real `StrLen`);
 * `pipe …`, `regexpipe <n>` – pipeline ops shared with C01;
 * `dissectpipe <groups> <pattern> <input> <batch>` – the dissect matcher with one worker, all matches held
@@ -240,6 +242,22 @@ def handle : List String → String
             some s!"{c.2}:{Hex.enc line}:{".".intercalate (ix.map toString)}:{Hex.enc ext}"
         s!"ok read={cells.length} matches={if rows.isEmpty then "." else ",".intercalate rows}"
     | _, _, _ => "bad-args"
+  | ["tfheap", bs, _, _, chunks, ls] =>
+    match bs.toNat?, decHexList ls with
+    | some batch, some lines =>
+      if batch = 0 then "unmodelled batch" else
+      let toks := if chunks == "." then [] else chunks.splitOn ","
+      let orc := tfOracle toks false
+      let orc := orc ++ List.replicate (lines.length - orc.length) false
+      let fin := BatchH.runH BatchH.timedLoop batch (lines.zip orc)
+      let arrs := fin.sent.map (·.1.arr)
+      let distinct := arrs.eraseDups.length == arrs.length
+      let caps := fin.sent.all (·.1.cap == batch)
+      let cells := BatchH.numbered (BatchH.lateRead fin)
+      if cells.any (fun c => c.1.isNone) then "panic" else
+      let rows := cells.filterMap fun c => c.1.map fun line => s!"{c.2}:{Hex.enc line}"
+      s!"ok distinct={if distinct then 1 else 0} caps={if caps then 1 else 0} src=1 lines={if rows.isEmpty then "." else ",".intercalate rows}"
+    | _, _ => "bad-args"
   | ["vis", b] =>
     match Hex.dec b with
     | some bytes =>
